@@ -212,6 +212,13 @@ func runConcCase(idx int, dir, tier string, seed int64) *caseResult {
 					continue
 				}
 			}
+			if strings.Contains(o.Err, ".sst: no such file or directory") {
+				// index/kv_store.go hands its one store-held kv snapshot to every lookup without a reference of their own; Flush
+				// closes it, the version is released and table files a compaction made obsolete are removed under the lookup
+				res.violation("C10/use-after-unmap/conc-table-file-removed-under-a-lookup", fmt.Sprintf("%s: query failed with %q: %s", caseID, o.Err, text),
+					map[string]interface{}{"case": caseID, "sql": text, "error": o.Err, "recent": recent()})
+				continue
+			}
 			res.violation("C10/conc/query-error/"+classToken(o.Err), fmt.Sprintf("%s: query failed with %q while flushes run; %d series must be selected: %s", caseID, o.Err, len(must), text),
 				map[string]interface{}{"case": caseID, "sql": text, "error": o.Err, "recent": recent()})
 			continue
